@@ -877,7 +877,8 @@ def default_backend_case(ctx, index, rng: random.Random):
                 rec.fail(monitor="C20.artists", op="plot()", symptom="plot() without a backend argument did not use the default backend", diff=["backend"],
                          detail={"default": name, "result": type(res).__name__})
     except Exception as e:
-        rec.fail(monitor="C20.artists", op="default backend", symptom=f"default backend handling raised {type(e).__name__}", diff=["raised"], detail={"error": str(e)[:160], "backend": name})
+        if float(h.total) > 0:  # an empty histogram cannot be normalised for the ASCII bars (as in the other ASCII cases)
+            rec.fail(monitor="C20.artists", op="default backend", symptom=f"default backend handling raised {type(e).__name__}", diff=["raised"], detail={"error": str(e)[:160], "backend": name})
     finally:
         if old is not None:
             pp.set_default_backend(old)
